@@ -246,6 +246,13 @@ func RunCase(p *Prop, seed int64, tier string, idx int) *CaseResult {
 		hostile := filepath.Join(dir, hostileDirName(idx))
 		if os.Mkdir(hostile, 0755) == nil {
 			caseDir = hostile
+			if (idx/12)%2 == 1 {
+				// ... and is reached through a symbolic link
+				link := filepath.Join(dir, "link to the case directory")
+				if os.Symlink(hostile, link) == nil {
+					caseDir = link
+				}
+			}
 		}
 	}
 	c := &Case{Prop: p.ID, Seed: seed, Idx: idx, Tier: tier, Dir: caseDir, res: res,
